@@ -24,6 +24,10 @@ ASSUMPTIONS = [
     "schema-expressible is read narrowly where the property text leaves the domain open: initial states are InitialState objects, "
     "stop lines have explicit points, shape groups have >= 2 members, additional sign values are non-empty strings, a dynamic "
     "obstacle has a prediction, interval bounds are ordered, polygons are non-degenerate (extent >> 10^-d)",
+    "3-D geometry is outside the property (2-D): specs with z on lanelet bounds / planning-problem start positions (8 %) are used "
+    "for the model correspondence of <z> only and counted as excluded",
+    "the benchmark id is a string at the model boundary (ScenarioID.from_benchmark_id(str(id)) is C13's subject); the date "
+    "attribute is an environment input of the model (what today() returned)",
     "first_occurrence of a traffic sign, the centre line of a lanelet, TrafficLight.color and the state class name are not part of "
     "the XML format (derived on reading) and are not compared",
 ]
@@ -31,7 +35,7 @@ TRUSTED = ["harness/snapshot.py (structural snapshot through public accessors) a
 REQUIRED_BUCKETS = ["role:static", "role:dynamic", "role:environment", "role:phantom", "pred:trajectory", "pred:set",
                     "shape:rect", "shape:circ", "shape:poly", "shape:group", "state:interval", "state:region", "state:custom",
                     "init:no-acceleration", "sign:virtual", "signal:horn", "goal:lanelets", "goal:shape", "light:inactive",
-                    "stopline", "intersection", "precision:1", "precision:12", "xsd-valid",
+                    "stopline", "intersection", "precision:1", "precision:12", "xsd-valid", "3d",
                     # every member of these XSD enumerations was used at least once
                     "enum-full:lineMarking", "enum-full:laneletType", "enum-full:vehicleType", "enum-full:obstacleTypeStatic",
                     "enum-full:obstacleTypeDynamic", "enum-full:obstacleTypeEnvironment", "enum-full:trafficLightColor",
@@ -185,6 +189,11 @@ def judge(ctx, spec, d, path, model=True):
     except Exception:  # noqa
         ok = False
     ctx.tag("xsd-valid" if ok else "xsd-invalid")
+    if spec.get("three_d"):
+        # the property speaks of 2-D geometry: a 3-D spec is only used for the correspondence (model of <z>)
+        ctx.excluded += 1
+        ctx.tag("3d")
+        return before, back
     want = expected(before)
     ds = S.diff(want, back, S.tol_precision(d), ignore=IGNORE)
     seen = set()
@@ -479,7 +488,7 @@ def run(ctx):
         case = json.load(open(p))
         tags_of(ctx, case["spec"], case["precision"])
         judge(ctx, case["spec"], case["precision"], path)
-    gen = G.Gen(ctx.rng)
+    gen = G.Gen(ctx.rng, three_d=0.08)
     for k in range(ctx.n(400)):
         spec = gen.gen_spec()
         for d in precisions_for(ctx, k):
